@@ -208,6 +208,44 @@ theorem snapshot_is_listing (q sq : Query) (db : DB) :
   simp only [snapshotBatch, vis_append, h1]
   congr 1
 
+/-- **Assumption made explicit: listing and snapshot index come from ONE transaction.** `snapshotBatch` is the
+    two-transaction batch with both transactions equal; `watchSnapshot` reads `currentEventIndex(tx)` and
+    `listTxn(tx, q)` from the same `tx`. -/
+theorem snapshotBatch_is_one_transaction (db : DB) (sq : Query) :
+    snapshotBatch db sq = snapshotBatchTwoTxn db db sq := rfl
+
+section twoTxn
+private def tId : RID := ⟨⟨[100], [1], [97]⟩, ⟨[100], [100]⟩, [120], [1]⟩
+private def tQ : Query := ⟨[100], [97], [100], [100], []⟩
+private def tDb0 : DB := (DB.empty.writeCAS ⟨tId, none, "1", 0⟩ "").1          -- x@"1", event index 3
+private def tDb1 : DB := (tDb0.writeCAS ⟨tId, none, "2", 1⟩ "1").1              -- x@"2", event index 4
+private def tWatch (batch : List Ev) : Watch :=
+  { q := tQ, subj := tQ.subject.1, inbox := [], snap := some batch, pos := 0, st := .opened, released := false }
+/-- the topic buffer after the publisher dispatched the second commit -/
+private def tBuf : List (List Ev) := [[⟨4, .upsert ⟨tId, none, "2", 1⟩⟩]]
+private def deliver3 (next : Watch → List (List Ev) → Watch × NextRes) (w : Watch) : List NextRes :=
+  let (w1, r1) := next w tBuf
+  let (w2, r2) := next w1 tBuf
+  let (_, r3) := next w2 tBuf
+  [r1, r2, r3]
+
+/-- **The one-transaction assumption matters.** If a commit lands between a listing transaction and a
+    separate index transaction, the snapshot lists x@"1" but is stamped with the index of x@"2"; a watch
+    whose index guard works (remembers the last index) then drops the event of x@"2" as already covered and
+    blocks — the watcher stays stale although the store holds x@"2". With one transaction the same watch
+    receives the event, and so does the guard-less watch of the current code even with two transactions
+    (each change alone is harmless). -/
+theorem two_transaction_snapshot_counterexample :
+    deliver3 Watch.nextLive (tWatch (snapshotBatchTwoTxn tDb0 tDb1 tQ.subject.2)) =
+      [.ev (.upsert ⟨tId, none, "1", 0⟩), .ev .eos, .block] ∧
+    tDb1.read tId = .found ⟨tId, none, "2", 1⟩ ∧
+    deliver3 Watch.nextLive (tWatch (snapshotBatch tDb0 tQ.subject.2)) =
+      [.ev (.upsert ⟨tId, none, "1", 0⟩), .ev .eos, .ev (.upsert ⟨tId, none, "2", 1⟩)] ∧
+    deliver3 Watch.next (tWatch (snapshotBatchTwoTxn tDb0 tDb1 tQ.subject.2)) =
+      [.ev (.upsert ⟨tId, none, "1", 0⟩), .ev .eos, .ev (.upsert ⟨tId, none, "2", 1⟩)] := by
+  refine ⟨by decide, by decide, by decide, by decide⟩
+end twoTxn
+
 /-- **What a watcher receives (the code as it is).** After any sequence of operations without a restore —
     i.e. for every interleaving of writers, deleters, readers, watchers and the publisher goroutine — every
     watch has received a prefix of: the listing of the store as it was after `gP` commits (`gP` ≤ now),
